@@ -106,6 +106,8 @@ def main():
         pcs = [rnd_str(r, "09-:Z+", 0, 3) for _ in range(r.randint(1, 5))]
         check("find_in", specs.find_in(":", *pcs) and specs.find_in("-", *pcs), pcs)
         check("rfind_in", specs.rfind_in(":", *pcs) and specs.rfind_in("-", *pcs), pcs)
+        lo_, n_ = r.randint(0, 4), r.randint(1, 3)
+        check("char_of_slice", all(specs.char_of_slice(anys + tokd, lo_, n_, j_) for j_ in range(n_)), (anys + tokd, lo_, n_))
         # character classes used by the char models
         ch = chr(r.choice([r.randint(0, 127), r.randint(128, 0x2FFF)]))
         if ord(ch) < 128:
